@@ -155,7 +155,7 @@ func runHistoryGo(kp *KeyPair, nu0 *big.Int, time0 int64, steps []any) string {
 				var parts []*revocation.EventList
 				for _, e := range evs {
 					key := fmt.Sprintf("%d", e.Index)
-					if p, ok := h.chunks[key]; ok && st.str("wire") == "flatten-reused" {
+					if p, ok := h.chunks[key]; ok && st.str("wire") == "flatten-reused" && st["tamper"] == nil {
 						parts = append(parts, p)
 						continue
 					}
@@ -167,7 +167,9 @@ func runHistoryGo(kp *KeyPair, nu0 *big.Int, time0 int64, steps []any) string {
 					if err := json.Unmarshal(bts, part); err != nil {
 						panic(err)
 					}
-					h.chunks[key] = part
+					if st["tamper"] == nil { // a chunk that was refused is not kept
+						h.chunks[key] = part
+					}
 					parts = append(parts, part)
 				}
 				fl, err := revocation.FlattenEventLists(parts)
